@@ -637,6 +637,10 @@ def gen_scale(rng):
         out.append(sweep(mbi([t_module(rng) for _ in range(n)])))
     out.append(sweep(mbi([t_meminfo(rng) for _ in range(1000)])))
     out.append(sweep(mbi([t_custom(rng) for _ in range(500)] + [t_cmdline(rng)])))
+    # many small tags in front of the one looked for (the model's walk is quadratic in the number of tags: 1000 is what a
+    # quick run affords; stack consumption that grows per tag only shows at ~10^5 tags on an 8 MiB stack - see DESIGN 15.12)
+    many = [tag(0x1337, b"") for _ in range(1000)]
+    out.append(sweep(mbi(many + [t_module(rng)])))
     # ELF: count * entry size (and index * entry size) at and beyond 2^32 with the two VALID entry sizes - a product computed in
     # 32 bits wraps to a small number that passes a bound; the tag holds one or two real entries and is followed by a neighbour
     for es, n in ((40, 0x06666667), (40, 0x0CCCCCCD), (64, 0x04000000), (64, 0x04000001), (40, 0x66666667), (64, 0xFFFFFFFF)):
